@@ -349,7 +349,7 @@ def run(R, env):
                 a, b = t[2]
                 for x, y in ((a, b), (b, a)):
                     if x[0] == "field" and x[2] == "receiver" and x[1][0] == "payload" and shared.unwrap_payload(x[1])[0] == "call" and shared.unwrap_payload(x[1])[1].endswith("Map::load") and ns_of(prog, shared.unwrap_payload(x[1])[2][0]) == "inflight":
-                        if (y[0] == "call" and y[1] == "std::option::Option::unwrap_or") or C02.recover_receiver_ok(prog, y):
+                        if (y[0] == "call" and y[1] in ("std::option::Option::unwrap_or", "std::option::Option::unwrap_or_else")) or C02.recover_receiver_ok(prog, y):
                             return EQ[t[1]]
             return None
         found = []
